@@ -579,7 +579,7 @@ fn gen_storm(rng: &mut Rng, tier: Tier) -> ConcCase {
     // a third of the storms consist of cheap whole-map queries (bpm, attribute builder): short calls
     // overlap only if they are issued together many times
     let cheap = rng.chance(0.33);
-    let long_break = !cheap && rng.chance(0.35);
+    let long_break = !cheap && rng.chance(if cfg!(miri) { 0.15 } else { 0.35 });
     let mut maps = Vec::new();
     for k in 0..n_maps {
         let mut sh = gen_shape(rng, 0, max_n);
@@ -595,7 +595,7 @@ fn gen_storm(rng: &mut Rng, tier: Tier) -> ConcCase {
         if long_break {
             // several hundred strain sections: long peak lists take other code paths than short ones
             let at = 1 + rng.usize(sh.n.max(2) - 1);
-            shift_times(&mut m, at, *rng.pick(&[110_000.0, 180_000.0, 420_000.0]));
+            shift_times(&mut m, at, if cfg!(miri) { 110_000.0 } else { *rng.pick(&[110_000.0, 180_000.0, 420_000.0]) });
         }
         let v = [1.0, 9.5, 5.0][k % 3];
         for l in m.pre.iter_mut() {
@@ -634,7 +634,7 @@ fn gen_storm(rng: &mut Rng, tier: Tier) -> ConcCase {
     let rounds = match (cfg!(miri), cheap) {
         (true, false) => {
             if convert_only {
-                10
+                8
             } else {
                 4
             }
